@@ -309,6 +309,11 @@ class SSHChannel(Generic[AnyStr], SSHPacketHandler):
 
         while self._send_buf and self._send_window:
             pktsize = min(self._send_window, self._send_pktsize)
+
+            # Don't spin if the peer advertised an unusable max packet size
+            if pktsize <= 0:
+                break
+
             buf, datatype = self._send_buf[0]
 
             if len(buf) > pktsize:
